@@ -37,6 +37,10 @@ class UserTransformError(Exception):
 _ST = {"n": 0, "crash": None, "trace": None}
 
 
+class UserInterrupt(BaseException):
+    """an interruption that is not an Exception (Ctrl-C, SystemExit, a cancelled task ...) arriving while the user transform runs"""
+
+
 class Flaky(Model):
     """user-supplied transform: counts its evaluations and raises at the k-th one"""
     n_inputs = 2
@@ -54,6 +58,8 @@ class Flaky(Model):
         if _ST["trace"] is not None:
             _ST["trace"].append("eval")
         if _ST["crash"] is not None and _ST["n"] == _ST["crash"]:
+            if _ST.get("interrupt"):
+                raise UserInterrupt("interrupted at evaluation %d" % _ST["n"])
             raise UserTransformError("user transform failed at evaluation %d" % _ST["n"])
         a, b = self._inner(x, y)
         if self._nan_beyond is not None:   # a transform undefined on part of the image: makes polynomial fits fail
@@ -164,11 +170,11 @@ def _invoke(w, case, world):
     if e == "footprint":
         return w.footprint()
     if e == "sip":
-        return w.to_fits_sip(max_pix_error=50, max_inv_pix_error=50, npoints=6, degree=m.get("degree", 2))
+        return w.to_fits_sip(max_pix_error=50, max_inv_pix_error=50, npoints=8, degree=m.get("degree", 2))
     if e == "tab":
         return w.to_fits_tab(sampling=300)
     if e == "to_fits":
-        return w.to_fits(max_pix_error=50, max_inv_pix_error=50, npoints=6, degree=2)
+        return w.to_fits(max_pix_error=50, max_inv_pix_error=50, npoints=8, degree=2)
     if e == "badargs":
         return w.numerical_inverse(1.0, 2.0, 3.0)
     if e == "noconv":
@@ -188,13 +194,14 @@ def _run(case, crash, world):
         np.set_printoptions(precision=5)
         w = _build(case)
         _ST["n"], _ST["crash"], _ST["trace"] = 0, crash, []
+        _ST["interrupt"] = bool(case.get("interrupt"))
         before = _snapshot()
         raised = None
         with contextlib.redirect_stdout(io.StringIO()):
             with _Patches():
                 try:
                     _invoke(w, case, world)
-                except UserTransformError:
+                except (UserTransformError, UserInterrupt):
                     raised = "userErr"
                 except Exception as e:
                     raised = C.exc_enum(e)
@@ -304,4 +311,5 @@ def gen(rng, tier):
                     p["dist"] = None
                 yield {"entry": entry, "mode": mode, "analytic": analytic, "params": p,
                        "err0": rng.choice([["warn", "warn"], ["warn", "warn"], ["ignore", "warn"], ["warn", "ignore"], ["ignore", "ignore"]]),
-                       "ks": [rng.randint(0, 1000) for _i in range(3)] if q else "all"}
+                       "ks": [rng.randint(0, 1000) for _i in range(3)] if q else "all",
+                       "interrupt": rng.random() < 0.4}      # the failure injected as a BaseException (an interruption) instead of an Exception
